@@ -78,7 +78,8 @@ Theorem C04_add_never_panics : forall g e C q s, length (qsigners q) = length C 
 Proof. exact cqc_add_no_panic. Qed.
 Print Assumptions C04_add_never_panics.
 
-(* Not yet proved (kept visible): the assembly theorem for timeout certificates. *)
+(* The assembly theorem for timeout certificates; proved in Properties/C04Tqc.v
+   (C04_full_timeout_assembly_proved), kept here as the named full statement. *)
 Definition C04_full_timeout_assembly : Prop := forall g e C v votes,
   let t := fold_left (fun t s => match tqc_add g e C t s with Ok t' => t' | _ => t end) votes (tqc_new v) in
   Permutation (tqagg t) (tqc_claimed C (tqmap t)) /\
